@@ -32,6 +32,25 @@ class Recorder(object):
         self._reset = True
         self._pre = None
 
+    def desync(self, classes=(), traits=(), all_=False):
+        """Harness action (not a request): remove rows of standard classes /
+        traits directly, as a database that was synchronised by an older
+        library version or not at all would lack them.  Must be followed by a
+        'sync' step before any API request."""
+        from sqlalchemy import text
+        with self.app.engine.connect() as conn:
+            if all_:
+                conn.execute(text("DELETE FROM resource_classes WHERE id < 10000"))
+                conn.execute(text("DELETE FROM traits WHERE name NOT LIKE 'CUSTOM_%'"))
+            for n in classes:
+                conn.execute(text("DELETE FROM resource_classes WHERE name = :n"), {'n': n})
+            for n in traits:
+                conn.execute(text("DELETE FROM traits WHERE name = :n"), {'n': n})
+            conn.commit()
+        self.app.reset_caches()
+        self._pre = None
+        self._reset = True
+
     def state(self):
         st, extra = project.dump(self.app.engine)
         return st, extra
@@ -43,8 +62,17 @@ class Recorder(object):
         r = dict(req)
         if r['op'] in ('alloc_put', 'alloc_post', 'reshape'):
             r['env'] = dict(self.env)
-        method, path, hdrs, body = concrete or reqs.render(r)
-        status, rh, rb = self.app.call(method, path, hdrs, body)
+        if r['op'] == 'sync':
+            # start-up synchronisation is not an HTTP request
+            method, path, hdrs, body = 'SYNC', 'deploy.update_database', {}, None
+            try:
+                self.app.sync()
+                status, rh, rb = 200, {}, b''
+            except Exception as ex:
+                status, rh, rb = 500, {}, repr(ex).encode()
+        else:
+            method, path, hdrs, body = concrete or reqs.render(r)
+            status, rh, rb = self.app.call(method, path, hdrs, body)
         post, extra = self.state()
         try:
             resp = reqs.parse(r, status, rh, rb)
